@@ -1156,9 +1156,11 @@ class Network:
 
         elif isinstance(peer_init_message, PeerPierceFirewall.Request):
             ticket = peer_init_message.ticket
-            try:
-                connection_future = self._expected_connection_futures[ticket]
-            except KeyError:
+            connection_future = self._expected_connection_futures.get(ticket)
+            # A future that is done but not yet removed (cancelled, timed out
+            # or already fulfilled in this loop iteration) no longer expects a
+            # connection
+            if connection_future is None or connection_future.done():
                 logger.warning(
                     "%s:%d : unknown pierce firewall ticket : %d",
                     connection.hostname, connection.port, ticket
